@@ -6,9 +6,33 @@ props = [json.loads(l) for l in open(os.path.join(here, 'properties.jsonl'))]
 
 # id -> (technique, level text, level note, design section)
 CLAIMED = {
+ 'C01': ('Hypothesis query triples (forced corner classes) on generated fitted models vs metric axioms with derived rounding slack',
+         'Exploration: for each of the 17 estimators, generated fitted models (sampled documented options, generated datasets) x generated query triples from forced classes (duplicates, collinear, 1e+-100 magnitudes, one-ulp, null-space of low-rank L); identities exact, triangle inequality with a derived slack; both entry points.',
+         'Sampled, not exhaustive; slack 64 eps sigma_max(L) sqrt(d) sum|diffs| + 1e-150.', '4/C01'),
+ 'C02': ('Hypothesis differential between all views of the metric and a long-double reference ||L(u-v)||',
+         'Exploration: generated models x query pools x representations; seven views and M = L^T L compared with a rounding bound derived from sigma_max(L).',
+         'Long-double reference evaluation by the harness; tolerance 64 eps sigma_max sqrt(d) scale.', '4/C02'),
+ 'C03': ('exhaustive enumeration of the documented option product per Hypothesis-drawn dataset, postcondition oracle',
+         'Exploration with an exhaustively enumerated finite sub-space: every documented option combination of every estimator is fitted on several generated well-formed datasets and the shape/dtype/PSD/n_features_in_/transform postconditions are checked.',
+         'Datasets are sampled; SDML RuntimeError is a specified outcome; one recorded known finding (ITML on large-scale data).', '4/C03'),
+ 'C04': ('Hypothesis tuples with forced ties and threshold-operation histories vs decisions recomputed from public pair_distance',
+         'Exploration: exact equality of predict/decision_function/score with decisions recomputed from pair_distance, brute-force AUC, threshold histories (set/calibrate/refit), ties and distance==threshold cases forced by the generator.',
+         'Oracle uses the public pair_distance on same-length batches.', '4/C04'),
+ 'C05': ('Hypothesis differential: estimator fed indices+preprocessor vs identical estimator fed formed arrays (bitwise)',
+         'Exploration: 17 estimators x 3 preprocessor kinds x 8 index dtypes x all data-taking methods, bitwise differential; call counter for formed data; raising preprocessor -> PreprocessorError.',
+         'LFDA compared up to eigenvector sign (ARPACK random start).', '4/C05'),
+ 'C06': ('exhaustive enumeration of a malformation grammar + Hypothesis-placed malformations + array-like equivalence differential (atheris fuzz target in the thorough tier)',
+         'Exploration with an exhaustively enumerated grammar: every (estimator, method, preprocessor, malformation) cell must raise ValueError; generated variants move the bad entry/size; equivalent array-likes (list/int16/int32/int64/Fortran/strided) must give the same model and outputs.',
+         'Grammar is finite and listed in vl/props/c06.py; equivalence tolerance 1e-9 (closed form) / 1e-4 (iterative).', '4/C06'),
  'C07': ('Hypothesis-generated label vectors / point sets checked against an independent validity oracle (brute-force k-NN, feasibility count)',
          'Exploration: thousands of generated label vectors (unknown labels, singleton classes, ties) per constraint kind, each output checked in both directions (soundness of every constraint, completeness of counts/combinations, determinism).',
          'Trusts numpy and the harness oracle; neighbour ties are accepted in any order.', '4/C07'),
+ 'C16': ('Hypothesis-drawn distance multisets (exact ties) vs brute-force optimum over all realisable cut-offs',
+         'Exploration: calibrated threshold must attain the brute-force optimum of the criterion over reject-all and every distinct distance, computed from integer counts; invalid parameters rejected before fitting.',
+         '1e-9 guard band on min_rate comparisons.', '4/C16'),
+ 'C18': ('exhaustive enumeration of (estimator, parameter, value kind) cells + Hypothesis set_params/clone/pickle/fit sequences against a dict model',
+         'Exploration with an exhaustively enumerated cell space: identity of stored parameters, defaults of the others, clone/pickle equality, deprecated aliases, NotFittedError for every method; generated histories compared with Est(**final_params).fit.',
+         'Value kinds are six representatives per parameter.', '4/C18'),
 }
 PENDING = 'check not built yet in this revision of /verif (planned, see DESIGN.md section 4)'
 
